@@ -7,6 +7,7 @@ Boundaries are
     directory: tempfile.mkdtemp, os.mkdir, open, os.remove, os.rename,
     shutil.rmtree, os.rmdir, ...
   * write()/writelines()/close() on file objects returned by cogent3.util.io.open_
+    (a close() that fails loses the unflushed tail of the data: the file is truncated, then OSError is raised)
     for a path inside the case directory (a harness-side proxy installed in the
     child only; these calls raise no audit event).
 At every boundary the child logs (role, raw event, snapshot of the directory
@@ -167,8 +168,11 @@ class Injector:
         return "other"
 
     # ------------------------------------------------------------ boundaries
-    def boundary(self, role, raw):
-        """called just BEFORE the call; returns normally, kills, or raises OSError"""
+    def boundary(self, role, raw, can_fail=True):
+        """called just BEFORE the call; returns normally, kills, or raises OSError
+
+        can_fail=False: the call cannot fail in reality (close() of an already closed file is a no-op):
+        it stays a boundary (kill point) but no OSError is injected into it"""
         self.idx += 1
         kind = "call"
         if self.idx == self.k and self.mode in ("kill", "fault"):
@@ -179,6 +183,8 @@ class Injector:
             kind = "kill"
         elif self.failing_site is not None and raw == self.failing_site:
             kind = "fault"  # the same call on the same path is issued again: it fails again
+        if kind == "fault" and not can_fail:
+            kind = "call"
         self.busy = True
         try:
             self.log({"i": self.idx, "role": role, "raw": raw, "kind": kind, "snap": self.snapshot()})
@@ -231,12 +237,29 @@ class FileProxy:
         self._inj.boundary("write", "writelines " + self._path)
         return self._real.writelines(lines)
 
+    def _already_closed(self):
+        return bool(getattr(self._real, "closed", False))
+
+    def _lose_unflushed(self):
+        """a close() whose flush fails (ENOSPC, EFBIG, EIO): fewer bytes reached the disk than were written.
+        The descriptor is released, the tail of the data is lost."""
+        inj = self._inj
+        path = os.path.join(inj.root, self._path)
+        inj.busy = True
+        try:
+            if os.path.isfile(path):
+                os.truncate(path, os.path.getsize(path) // 2)
+        except OSError:
+            pass
+        finally:
+            inj.busy = False
+
     def close(self):
         try:
-            self._inj.boundary("close", "close " + self._path)
+            self._inj.boundary("close", "close " + self._path, can_fail=not self._already_closed())
         except OSError:
-            # a failing close (e.g. ENOSPC on flush) still releases the descriptor
             self._real.close()
+            self._lose_unflushed()
             raise
         return self._real.close()
 
@@ -246,9 +269,10 @@ class FileProxy:
 
     def __exit__(self, et, ev, tb):
         try:
-            self._inj.boundary("close", "close " + self._path)
+            self._inj.boundary("close", "close " + self._path, can_fail=not self._already_closed())
         except OSError:
             self._real.__exit__(et, ev, tb)
+            self._lose_unflushed()
             raise
         return self._real.__exit__(et, ev, tb)
 
